@@ -15,8 +15,14 @@ Hoare-style verification of all twenty-odd parser functions (`Lemmas/ParserSpecs
 facts the "try the next production" idiom relies on: a production that fails softly leaves a consistent
 generator, `parse_value` never fails softly, and a `LexerError` is never swallowed.
 
-Termination (that `fuel` itself cannot occur with `fuelFor`) is *not* proved yet: it is checked by the
-correspondence run (the real loader under a 2 s guard vs the model's `HANG`) — see C06_total_partial.
+**C06_terminates**: the `fuel` outcome cannot occur either.  A third Hoare pass (`Lemmas/ParserTerm*.lean`)
+counts the tokens the lexer generator can still deliver: no function increases the count, every
+production that succeeds and every "keep parsing" answer of the module post-hook decreases it, and a
+function that gives up for lack of fuel had less than `3·(tokens left) + 5`; `parseWith` provides
+`4·(tokens + 2) + 16`.  So the model's `parse()` terminates on every text with a module, a `LexerError`
+or a `ParseError` (**C06_total**) — in particular no loop of the parser re-reads the same token for ever
+(the defect behind the hang on `a=1=` that was repaired in /repo).  The real loader is tied to this by
+the correspondence run, where it runs under a CPU-time guard.
 -/
 namespace Pvl
 open P
@@ -31,6 +37,27 @@ theorem C06_errors (g : Grammar) (d : Dec) (kind : ParserKind) (prior : List Int
   · exact Or.inl h1
   · exact Or.inr (Or.inl h2)
   · exact Or.inr (Or.inr h3)
+
+/-- **C06, termination**: the model's `parse()` never runs out of the fuel `parseWith` gives it -/
+theorem C06_terminates (g : Grammar) (d : Dec) (kind : ParserKind) (prior : List Int) (text : Str) :
+    (parseWith g d kind prior text).outcome ≠ .error .fuel := parse_terminates g d kind prior text
+
+/-- **C06, whole statement over the model**: every `parse()` ends with a module, a `LexerError` or a
+    `ParseError` -/
+theorem C06_total (g : Grammar) (d : Dec) (kind : ParserKind) (prior : List Int) (text : Str) :
+    (∃ m, (parseWith g d kind prior text).outcome = .ok m) ∨
+    (∃ p, (parseWith g d kind prior text).outcome = .error (.lexer p)) ∨
+    (∃ t, (parseWith g d kind prior text).outcome = .error (.parse t)) := by
+  cases h : (parseWith g d kind prior text).outcome with
+  | ok m => exact Or.inl ⟨m, rfl⟩
+  | error e =>
+    have h1 := C06_errors g d kind prior text e h
+    have h2 := C06_terminates g d kind prior text
+    rcases h1 with h1 | ⟨t, rfl⟩ | rfl
+    · obtain ⟨p, rfl⟩ := (isLexer_iff e).mp h1
+      exact Or.inr (Or.inl ⟨p, rfl⟩)
+    · exact Or.inr (Or.inr ⟨t, rfl⟩)
+    · exact absurd h h2
 
 /-- the undocumented exception kinds, spelled out -/
 theorem C06_no_leak (g : Grammar) (d : Dec) (kind : ParserKind) (prior : List Int) (text : Str) :
